@@ -8,6 +8,7 @@ import A10Verif.Model.Basic
 import A10Verif.Model.Addr
 import A10Verif.Model.Life
 import A10Verif.Model.SqRing
+import A10Verif.Model.Wake
 import A10Verif.Model.Bufs
 import A10Verif.Model.Composite
 import A10Verif.Model.ReadBuf
@@ -19,6 +20,7 @@ open A10
 structure DriverState where
   life : Life.Sys := {}
   sq : SqRing.St := SqRing.init 1 0 0
+  wake : Wake.St := {}
   bufs : Bufs.St := Bufs.init
   readbuf : ReadBuf.St := ReadBuf.init
   inotify : Inotify.St := Inotify.init
@@ -31,6 +33,7 @@ def dispatch (st : DriverState) (toks : List String) : DriverState × List Strin
   | "inotify" :: _ => let (s, o) := Inotify.stepLine st.inotify toks; ({ st with inotify := s }, o)
   | "bufs" :: _ => let (s, o) := Bufs.stepLine st.bufs toks; ({ st with bufs := s }, o)
   | "composite" :: _ => (st, Composite.stepLine toks)
+  | "wake" :: _ => let (s, o) := Wake.stepLine st.wake toks; ({ st with wake := s }, o)
   | "sq" :: _ => let (s, o) := SqRing.stepLine st.sq toks; ({ st with sq := s }, o)
   | "life" :: _ => let (s, o) := Life.stepLine st.life toks; ({ st with life := s }, o)
   | _ => (st, ["bad-op"])
